@@ -38,7 +38,8 @@ structure Trace where
   nbSeq : Nat := 0
   modes : Nat × Nat × Nat := (0, 0, 0)       -- LL, OF, ML symbol-compression modes
   seqs : Array Seq := #[]
-  seqBitstreamAndTables : Nat := 0           -- bytes of the sequences section after the modes byte
+  tableSizes : Nat × Nat × Nat := (0, 0, 0)  -- bytes of the LL, OF, ML table descriptions
+  bitstreamSize : Nat := 0
 deriving Inhabited
 
 structure LitResult where
@@ -180,7 +181,7 @@ def decodeBlock (src : Bytes) (start cSize : Nat) (ent : Entropy) (dict : Bytes)
   ip := ip + u2
   let (mlT, mlLog, u3) ← buildSeqTable ((mb >>> 2) &&& 3) src ip iend MaxML MLFSELog ML_base ML_bits ML_defaultDTable ML_DEFAULTNORMLOG e.ml e.mlLog e.fseValid
   ip := ip + u3
-  tr := { tr with modes := (mb >>> 6, (mb >>> 4) &&& 3, (mb >>> 2) &&& 3), seqBitstreamAndTables := iend - (ip - u1 - u2 - u3) }
+  tr := { tr with modes := (mb >>> 6, (mb >>> 4) &&& 3, (mb >>> 2) &&& 3), tableSizes := (u1, u2, u3), bitstreamSize := iend - ip }
   e := { e with ll := llT, llLog := llLog, of := ofT, ofLog := ofLog, ml := mlT, mlLog := mlLog, fseValid := true }
   if dstCap == 0 then throw .dstTooSmall
   -- ZSTD_decompressSequences
